@@ -250,9 +250,11 @@ func (j *Join) ParallelJoinFunc(l, r *HashedTable) ([]any, error) {
 					mut.Unlock()
 				}
 			}()
+			verifPoint("join.par.enter")
 			switch ok, matches, err := j.JoinMatchFunc(lk, lv, l, r); {
 			case ok:
 				{
+					verifPoint("join.par.append")
 					mut.Lock()
 					slice = append(slice, matches...)
 					mut.Unlock()
@@ -359,9 +361,11 @@ func (j *Join) ParallelHashJoinFunc(l, r *HashedTable) ([]any, error) {
 					mut.Unlock()
 				}
 			}()
+			verifPoint("join.par.enter")
 			switch ok, matches, err := j.HashJoinMatchFunc(lk, l, r); {
 			case ok:
 				{
+					verifPoint("join.par.append")
 					mut.Lock()
 					slice = append(slice, matches...)
 					mut.Unlock()
